@@ -34,7 +34,7 @@ import (
 func init() {
 	core.Register(&core.Prop{
 		ID: "C19",
-		Rule: "E2: every unordered pair of 16 API calls (LookupPath, Fields iteration with Selector, List, Unify, FillPath, Validate, Validate(Concrete), Default, Syntax+format, Decode into struct / map, MarshalJSON, yaml.Encode, Subsume, CompileString on the same and on a second context) on each of 8 shared values, every schedule with <=2 deviations at the synchronisation points of the instrumented files (label index, import and type caches, decode field cache, convert cache, context generation counter, weak map, token.File); triples from a 6-call core (thorough). Race pass: the same pairs on real goroutines under the race detector. " +
+		Rule: "E2: every unordered pair of 17 API calls (LookupPath, LookupPath with optional / any-string / any-index selectors, Fields iteration with Selector, List, Unify, FillPath, Validate, Validate(Concrete), Default, Syntax+format, Decode into struct / map, MarshalJSON, yaml.Encode, Subsume, CompileString on the same and on a second context) on each of 9 shared values, every schedule with <=2 deviations at the synchronisation points of the instrumented files (label index, import and type caches, decode field cache, convert cache, context generation counter, weak map, token.File); triples from a 6-call core (thorough). Race pass: the same pairs on real goroutines under the race detector. " +
 			"Non-trivial = scenarios with >=2 schedules and a call that takes the slow path of the label index (fresh labels per execution).",
 		Assumptions: []string{"scheduling points are the synchronisation operations of the instrumented files; plain memory accesses inside the evaluator are not interleaved by the explorer but are monitored by the race detector in the race pass (happens-before based, sound for the executed paths)",
 			"the race pass needs the binary built with -race (lib/build.sh does); without it the pass is reported as skipped and the run is not exhaustive"},
@@ -71,6 +71,8 @@ var programs = []string{
 	"src: {x: 1, y: 2}\ns: {for k, v in src {\"\\(k)2\": v + 1}}\nlet L = src.x\nl: [L, L]\nm: {p: L}\n",
 	// 7: closed structs and definitions with embedding
 	"#A: {a: int}\n#B: {#A, b?: string}\ns: #B & {a: 1}\nc: close({z: 1})\nl: [s.a]\nm: {p: c.z}\n",
+	// 8: pattern constraints with a label alias, open list
+	"s: {[Name=string]: {name: Name, tag: \"t-\\(Name)\"}, ak1: {}}\nl: [...int] & [1, 2]\nm: {p: s.ak1.name}\n#Def: {a: 1}\n_hid: 2\n",
 }
 
 var seq atomic.Int64
@@ -243,6 +245,26 @@ var calls = []call{
 		deposit(id, w)
 		return errClass(w.Validate(cue.Concrete(true)))
 	}},
+	{"SelectorKinds", func(ctx *cue.Context, v cue.Value, id int64) string {
+		// optional, any-string and any-index selectors: the answer is computed
+		// on demand from the pattern constraints of the shared value
+		show := func(x cue.Value) string {
+			if !x.Exists() {
+				return "absent;"
+			}
+			b, err := format.Node(x.Syntax(cue.All()))
+			return strings.Join(strings.Fields(string(b)), " ") + errClass(err) + ";"
+		}
+		s := v.LookupPath(cue.ParsePath("s"))
+		out := show(s.LookupPath(cue.MakePath(cue.AnyString)))
+		out += show(s.LookupPath(cue.MakePath(cue.Str(fmt.Sprintf("aopt%d", id)).Optional())))
+		out += show(s.LookupPath(cue.MakePath(cue.Str("ak1").Optional())))
+		out += show(s.LookupPath(cue.MakePath(cue.Str(fmt.Sprintf("aopt%d", id)))))
+		out += show(s.LookupPath(cue.MakePath(cue.AnyString)))
+		out += show(v.LookupPath(cue.MakePath(cue.Str("l"), cue.AnyIndex)))
+		out += show(v.LookupPath(cue.MakePath(cue.Def("#Def"), cue.Str("zz").Optional())))
+		return out
+	}},
 	{"OtherContext", func(_ *cue.Context, v cue.Value, id int64) string {
 		c2 := cuecontext.New()
 		w := c2.CompileString(fmt.Sprintf("o%d: {x: 1, y: x + 1}\nl: [o%d.y]\n", id, id))
@@ -255,6 +277,7 @@ var tripleCore = []int{0, 1, 3, 4, 9, 14}
 
 func run(r *core.Run) {
 	sched.Stop = r.Expired // soft time budget: explorations end with Complete=false
+	sched.CoalesceReads = true
 	bound := 1
 	if r.Thorough() {
 		bound = 2
@@ -266,6 +289,9 @@ func run(r *core.Run) {
 	// phase 1: cooperative exploration
 	r.Section(fmt.Sprintf("pairs of %d calls x %d values, schedules with <=%d deviations", len(calls), len(programs), bound))
 	for vi := range programs {
+		if ov := os.Getenv("VERIF_C19_VALUE"); ov != "" && ov != fmt.Sprint(vi) {
+			continue
+		}
 		for a := 0; a < len(calls); a++ {
 			for b := a; b < len(calls); b++ {
 				if !r.Mine() {
@@ -335,6 +361,7 @@ func replay(r *core.Run, raw json.RawMessage) {
 		r.EngineError(err.Error())
 		return
 	}
+	sched.CoalesceReads = true
 	explore(r, c, 2)
 	if raceEnabled {
 		racePair(r, c)
@@ -507,6 +534,10 @@ func prewalk(x cue.Value, d int) {
 func racePairCore(c kase) (key, detail string) {
 	before := racelog.Reports()
 	wantDerived := sequentialDerived(c)
+	want := make([]string, len(c.Calls))
+	for i, ci := range c.Calls {
+		want[i] = strings.ReplaceAll(baseline(c.Value, ci), fmt.Sprint(baselineID), "N")
+	}
 	for rep := 0; rep < raceReps; rep++ {
 		// cold process-wide caches for every repetition: a cache that is filled
 		// on first use is shared mutable state exactly once per key
@@ -520,19 +551,27 @@ func racePairCore(c kase) (key, detail string) {
 		start := make(chan struct{})
 		var wg sync.WaitGroup
 		ids := make([]int64, len(c.Calls))
+		got := make([]string, len(c.Calls))
 		for i, ci := range c.Calls {
-			ci := ci
+			i, ci := i, ci
 			id := seq.Add(1)
 			ids[i] = id
 			wg.Add(1)
 			go func() {
 				defer wg.Done()
 				<-start
-				calls[ci].fn(ctx, v, id)
+				got[i] = calls[ci].fn(ctx, v, id)
 			}()
 		}
 		close(start)
 		wg.Wait()
+		if !c.Raw {
+			for i := range got {
+				if g := strings.ReplaceAll(got[i], fmt.Sprint(ids[i]), "N"); g != want[i] {
+					return fmt.Sprintf("call %s returns a different answer than when run alone (free run)", calls[c.Calls[i]].name), fmt.Sprintf("alone:      %s\nconcurrent: %s", want[i], g)
+				}
+			}
+		}
 		if d := derivedString(ids); d != wantDerived {
 			return "values derived concurrently do not unify as the sequentially derived ones (free run)", fmt.Sprintf("sequential: %s\nconcurrent: %s", wantDerived, d)
 		}
